@@ -51,8 +51,8 @@ CHECKS = {
         text='Every sector of every generated surface carries a unique fingerprint; dump-sector on boundary and random '
              '(track, sector) addresses of ssd/sdd, dsd/ddd and MMB slots must show the sector stored at the '
              'documented offset, and the S/F hook records of the same read must carry that position.  Out-of-range '
-             'addresses, reads past the end of truncated files and MMB slots with status F0/FF/illegal must fail '
-             'with a diagnostic and no data.',
+             'addresses, reads past the end of truncated files (always including the sector that straddles the cut) '
+             'and every reading command on MMB slots with status F0/FF/illegal must fail with a diagnostic and no data.',
         note='MMB drive numbers are taken under --drive-first.  Two-sided non-interleaved ssd/sdd images are probed '
              'with side 1 expected on drive 2.'),
     'C17': dict(
@@ -132,7 +132,8 @@ CHECKS = {
         technique='fault injection on recorded tracks with a truth oracle (CRC-collision-at-home excuse) and an independent bit-level scanner, run against the real decoders under ASan+UBSan; fingerprint attribution at image level',
         text='A harness linked against the repository decoders receives valid FM/MFM tracks subjected to bit flips, cell '
              'insertions/deletions, zeroed runs and truncation aimed at sync / ID mark / ID field / gap2 / data mark / data '
-             '/ CRC (incl. lost records and record+next-header double faults): every yielded sector must be CRC-valid in '
+             '/ CRC (incl. lost records, record+next-header double faults, fields re-encoded with legal clocks and a stale '
+             'CRC, and recorded CRCs wrong by exactly the pattern that leaves each single residue bit): every yielded sector must be CRC-valid in '
              'the damaged stream at the home position of its address.  Arbitrary streams are judged by an independent '
              'scanner that finds every CRC-valid ID and data field at every cell offset.  Damaged HFE v1/v3 and HxC MFM '
              'images are read with the real dfs and every delivered sector is attributed by fingerprint.',
@@ -179,12 +180,15 @@ CHECKS = {
              'distinct and complete, --show-config equal to them, earlier surfaces unmoved, physical policy never on the '
              'opposite side of another image and surfaces at n, n+2, ..., --drive-first on the lowest free numbers; then '
              'drives are read by argument, --drive and :k. prefix and must deliver the unique title / file of the surface '
-             'attached there; empty drives must deliver nothing.',
-        note='Which admissible number the physical policy picks is not judged.'),
+             'attached there; empty drives must deliver nothing; a drive argument with a junk suffix must fail or address '
+             'the drive its leading number names.  A surface is identified by the unique title it delivers (one '
+             'show-titles run per prefix) and, where that free text can be read, by the file name and side / slot number '
+             'of its description.',
+        note='Which admissible number the physical policy picks is not judged; the wording of descriptions is not judged.'),
     'C18': dict(
         category='exploration', design_ref='DESIGN.md section 2, C18',
         technique='metamorphic monitor over option insertions, option order, --ui and COLUMNS (pty and file), on the ASan+UBSan build',
-        text='Valid images of every container (incl. Opus multi-volume, flux v1/v3/HxC, MMB) and hostile images x commands: '
+        text='Valid images of every container (incl. Opus multi-volume, flux v1/v3/HxC, MMB, two-sided files with a blank second side) and hostile images x commands: '
              'repeat, --verbose / --show-config / both at random option positions, --verbose first, reordered --drive/'
              '--dir/--ui must leave stdout and status unchanged; cat under --ui x 13 COLUMNS values on a pty and a file '
              'must report the same entries, locks, cycle, option and drive; other commands must not change with --ui; a '
